@@ -25,6 +25,8 @@ meta = {"seed": name, "property": pid, "steps": {}}
 os.makedirs("/tmp/vs", exist_ok=True)
 sh(f"git -C /repo worktree remove --force {wt}")
 PIN = open("/root/.vp/repo_root_sha").read().strip() if os.path.exists("/root/.vp/repo_root_sha") else "HEAD"
+if "--head" in sys.argv:
+    PIN = "HEAD"   # seed was written against the current tree (with fix: commits)
 rc, out = sh(f"git -C /repo worktree add --detach {wt} {PIN}")
 if rc != 0:
     PIN = subprocess.check_output("git -C /repo rev-list --max-parents=0 HEAD", shell=True, text=True).split()[0]
